@@ -170,6 +170,17 @@ def impl_net(case):
         declared = {nm: [frac(x) for x in np.asarray(args[i].detach().numpy() if hasattr(args[i], "detach") else args[i], dtype=np.float64).reshape(-1)]
                     for i, nm in enumerate(names) if i >= 3}
         ny = int(np.prod(np.shape(args[1])))
+        if case.get("then"):
+            # a later compilation in the same process (other model, other float precision, same backend) must not change what the
+            # function handed out earlier computes (process-global dtype switches such as jax_enable_x64 / torch default dtype)
+            from pyrates import OperatorTemplate, NodeTemplate, CircuitTemplate
+            for k2, prec2 in enumerate(case["then"]):
+                op2 = OperatorTemplate(name=f"later{k2}", path=None, equations=["q' = -q*c + 1.0"], variables={"q": "output(0.5)", "c": 2.0})
+                net2 = CircuitTemplate(name=f"net2_{k2}", path=None, nodes={"m": NodeTemplate(name="m", path=None, operators=[op2])})
+                kw2 = dict(float_precision=prec2) if prec2 else {}
+                f2, a2, _, _ = net2.get_run_func("vf2", 0.125, file_name=_fname("l"), vectorize=False, backend=b, solver="euler",
+                                                 in_place=False, clear=False, verbose=False, **kw2)
+                f2(*a2)
         outs = []
         for pt in case["points"]:
             a = list(args)
@@ -228,6 +239,28 @@ def impl_rollnet(case):
                 a[i] = _like(args[i], float(Fr(pt[nm])), prec)
             d = _call(func, a, b)
             outs.append([[frac(v) for v in d[px[0]:px[1]]], [frac(v) for v in d[pz[0]:pz[1]]]])
+        return dict(outs=outs)
+    finally:
+        pyr.reset_pyrates()
+
+def impl_consts(case):
+    """x' = pi*k with k a power of two: the value of the named constant on each backend, bit for bit"""
+    import numpy as np, pyr
+    from pyr import frac
+    from pyrates import OperatorTemplate, NodeTemplate, CircuitTemplate
+    b = case["backend"]
+    pyr.reset_pyrates()
+    try:
+        op = OperatorTemplate(name="cop", path=None, equations=[f"x' = {case.get('const', 'pi')}*k"], variables={"x": "output(0.0)", "k": 1.0})
+        net = CircuitTemplate(name="net", path=None, nodes={"p": NodeTemplate(name="p", path=None, operators=[op])})
+        func, args, names, smap = net.get_run_func("vf", 0.125, file_name=_fname("c"), vectorize=False, backend=b, float_precision="float64",
+                                                   solver="euler", in_place=False, clear=False, verbose=False)
+        names = list(names); i = names.index("p/cop/k"); outs = []
+        for k in case["ks"]:
+            a = list(args)
+            a[i] = _like(args[i], float(Fr(k)), "float64")
+            a[2] = _like(args[2], np.zeros(np.shape(args[2])), "float64")
+            outs.append(frac(_call(func, a, b)[0]))
         return dict(outs=outs)
     finally:
         pyr.reset_pyrates()
@@ -395,7 +428,7 @@ def impl_hooks(case):
     return out
 
 def impl(case):
-    return {"interp": impl_interp, "net": impl_net, "traj": impl_traj, "hooks": impl_hooks, "pop": impl_pop, "rollnet": impl_rollnet}[case["kind"]](case)
+    return {"interp": impl_interp, "net": impl_net, "traj": impl_traj, "hooks": impl_hooks, "pop": impl_pop, "rollnet": impl_rollnet, "consts": impl_consts}[case["kind"]](case)
 
 # =============================================================================================== generators
 def dy(rng, lo, hi, den):
@@ -423,9 +456,9 @@ def gen_interp(rng, fortran, big=False):
         case["routes"] += ["rows_np", "rows_jnp"]
     return case
 
-def gen_poly(rng, need_inp):
+def gen_poly(rng, need_inp, long=False):
     mons = {}
-    for _ in range(rng.randint(1, 4)):
+    for _ in range(rng.randint(14, 20) if long else rng.randint(1, 4)):
         e = (rng.randint(0, 2), rng.randint(0, 1), rng.randint(0, 1), rng.choice([0, 0, 1, 2]))
         if sum(e) > 3:
             continue
@@ -434,9 +467,9 @@ def gen_poly(rng, need_inp):
         mons[(0, 0, 0, 1)] = Fr(1)
     return [[str(c), *e] for e, c in sorted(mons.items())]
 
-def _gen_net_model(rng):
+def _gen_net_model(rng, long=False):
     nn = rng.randint(2, 4)
-    ops = {nm: dict(px=gen_poly(rng, True), pv=gen_poly(rng, False)) for nm in ["opa", "opb"][:rng.randint(1, 2)]}
+    ops = {nm: dict(px=gen_poly(rng, True, long), pv=gen_poly(rng, False, long)) for nm in ["opa", "opb"][:rng.randint(1, 2)]}
     for o in ops.values():
         if rng.random() < 0.6:      # registry functions evaluated at the constant argument w = 0, where their value is exact
             o["sp"] = {fn: str(Fr(rng.choice([-3, -2, -1, 1, 2, 3]), 2)) for fn in rng.sample(["sigmoid", "tanh", "exp", "cos", "sin"], rng.randint(1, 3))}
@@ -550,6 +583,30 @@ def pop_exact(case):
         B = new
     return True
 
+AT0 = {"sigmoid": Fr(1, 2), "tanh": Fr(0), "exp": Fr(1), "cos": Fr(1), "sin": Fr(0)}       # Spec of the registry functions at 0
+
+def py_net_deriv(case, pt):
+    xs = [Fr(x) for x, _ in pt["state"]]; vs = [Fr(v) for _, v in pt["state"]]
+    out = []
+    for j, nd in enumerate(case["nodes"]):
+        inp = sum((Fr(w) * xs[s_] for s_, t_, w in case["edges"] if t_ == j), Fr(0))
+        k = Fr(pt["k"][j]); o = case["ops"][nd["op"]]
+        ev = lambda poly: sum((Fr(c) * xs[j] ** a_ * vs[j] ** b_ * k ** k_ * inp ** d_ for c, a_, b_, k_, d_ in poly), Fr(0))
+        out += [ev(o["px"]) + sum((Fr(c) * AT0[fn] for fn, c in o.get("sp", {}).items()), Fr(0)), ev(o["pv"])]
+    return out
+
+def needs_double(case):
+    """some output of some point is not representable with a 24-bit significand (a float32 evaluation cannot return it)"""
+    def sig_bits(f):
+        n = abs(f.numerator)
+        return n.bit_length() if n else 0          # reduced fraction with power-of-two denominator: the numerator is the odd significand
+    return any(sig_bits(v) > 24 for pt in case["points"] for v in py_net_deriv(case, pt))
+
+def fine_points(rng, case):
+    """states with 12 fractional bits: products of two or three of them need 26..40 significand bits"""
+    fv = lambda: str(Fr(rng.randint(-8, 8), 4) + Fr(rng.randrange(1, 4096, 2), 4096))
+    return [dict(pt, state=[[fv(), fv()] for _ in pt["state"]]) for pt in case["points"][:3]]
+
 def net_exact(case):
     for pt in case["points"]:
         xs = [Mag.of(x) for x, _ in pt["state"]]; vs = [Mag.of(v) for _, v in pt["state"]]
@@ -602,31 +659,28 @@ def _redraw_lin(rng, case, scale):
 
 def gen_lin_model(rng, with_input, second=False):
     """rows >= 2 (mostly >= 3), store_step 1..3 also with inputs: a wrong step counter after the first stored block shows from row 2 on"""
-    nn = rng.randint(1, 3)
-    pairs = [(s_, t_) for s_ in range(nn) for t_ in range(nn)]
-    rng.shuffle(pairs)
-    ss = rng.choice([1, 2, 2, 3])
-    rows = rng.choice([2, 3, 3, 4])
-    steps = rows * ss
-    if ss >= 3 and rng.random() < 0.3:
-        steps -= 1                                     # not a multiple: ceil(steps/ss) == round(T/dts) still (the row count is C03's subject)
-    dt = Fr(1, rng.choice([2, 2, 4]))
-    base = dict(kind="traj", nodes=[dict() for _ in range(nn)], edges=[[s_, t_, "1"] for s_, t_ in pairs[:rng.randint(0 if nn == 1 else 1, min(3, len(pairs)))]],
-                dt=str(dt), steps=steps, ss=ss, u=["0"] * (steps + ss + 2) if with_input else [])
-    tries = 0
     while True:
-        tries += 1
-        case = _redraw_lin(rng, base, 1 + tries // 40)
-        if not traj_exact(case):
-            continue
+        nn = rng.randint(1, 3)
+        pairs = [(s_, t_) for s_ in range(nn) for t_ in range(nn)]
+        rng.shuffle(pairs)
+        ss = rng.choice([1, 2, 2, 3])
+        rows = rng.choice([2, 3, 3, 4])
+        steps = rows * ss
+        if ss >= 3 and rng.random() < 0.3:
+            steps -= 1                                 # not a multiple: ceil(steps/ss) == round(T/dts) still (the row count is C03's subject)
+        dt = Fr(1, rng.choice([2, 2, 4]))
+        base = dict(kind="traj", nodes=[dict() for _ in range(nn)],
+                    edges=[[s_, t_, "1"] for s_, t_ in pairs[:rng.randint(0 if nn == 1 else 1, min(3, len(pairs)))]],
+                    dt=str(dt), steps=steps, ss=ss, u=["0"] * (steps + ss + 2) if with_input else [])
+        found = [c for c in (_redraw_lin(rng, base, 1 + t // 12) for t in range(36)) if traj_exact(c)]
+        if not found or (second and len(found) < 2):
+            continue                                   # this step layout cannot be made exact with these magnitudes: draw another layout
+        case = found[0]
         if second:                                     # a second parameterisation of the SAME structure, run in the same process
-            for _ in range(60):
-                c2 = _redraw_lin(rng, base, 1 + tries // 40)
-                if traj_exact(c2) and (c2["nodes"] != case["nodes"] or c2["u"] != case["u"]):
-                    case["second"] = dict(nodes=c2["nodes"], edges=c2["edges"], u=c2["u"])
-                    break
-            else:
+            c2 = found[-1]
+            if c2["nodes"] == case["nodes"] and c2["u"] == case["u"]:
                 continue
+            case["second"] = dict(nodes=c2["nodes"], edges=c2["edges"], u=c2["u"])
         return case          # (a run with ONE stored row and >= 2 outputs raises in run(): np.squeeze; not a backend matter)
 
 def gen_vec_model(rng, with_input, delay):
@@ -678,9 +732,9 @@ def _gen_rollnet(rng):
                 points=[dict(x=vec(), z=vec(), a=dy(rng, -4, 4, 2), k=dy(rng, -4, 4, 2), g=dy(rng, -4, 4, 2)) for _ in range(3)])
 
 def _until(gen, ok):
-    def g(rng):
+    def g(rng, *a):
         while True:
-            c = gen(rng)
+            c = gen(rng, *a)
             if ok(c):
                 return c
     return g
@@ -709,12 +763,19 @@ def generate(ctx):
     # polynomial networks
     n_net, n_net_f = (10, 2) if q else (120, 14)
     for i in range(n_net):
-        m = gen_net_model(rng)
+        m = gen_net_model(rng, i < n_net_f and i % 2 == 0)      # long right-hand sides on Fortran models: continuation lines (break_line)
         for b in PY_BACKENDS + (["fortran"] if i < n_net_f else []):
             cases.append(dict(m, backend=b, precision="float64", mid=f"net{i}"))
         if i % 3 == 0:
             for b in PY_BACKENDS:
                 cases.append(dict(m, backend=b, precision="float32", mid=f"net{i}", support=True))
+        if i % 2 == 0:                 # precision / compile sequences in one process: float64 function, later float32 and default-precision compiles
+            for _ in range(40):
+                mf = dict(m, points=fine_points(rng, m))
+                if net_exact(mf) and needs_double(mf):
+                    for b in PY_BACKENDS:
+                        cases.append(dict(mf, backend=b, precision="float64", mid=f"netseq{i}", then=rng.choice([["float32"], [None], ["float32", "float64", None]])))
+                    break
         if any("sp" in o for o in m["ops"].values()):      # transcendental values away from 0: tolerance, support only
             mw = dict(m, points=[dict(pt, w=dy(rng, -8, 8, 4)) for pt in m["points"]])
             for b in PY_BACKENDS + (["fortran"] if i < n_net_f else []):
@@ -758,6 +819,11 @@ def generate(ctx):
         m = gen_rollnet(rng)
         for b in PY_BACKENDS + (["fortran"] if i < n_roll_f else []):
             cases.append(dict(m, backend=b, mid=f"roll{i}"))
+    # named constants: pi on every backend, bit for bit
+    for b in PY_BACKENDS + ["fortran"]:
+        cases.append(dict(kind="consts", backend=b, mid="consts", ks=[str(Fr(2) ** rng.randint(-6, 6)) for _ in range(3)]))
+        if b != "fortran":             # `E` does not compile on Fortran (no module constant): loud, reported with the pi finding
+            cases.append(dict(kind="consts", const="E", backend=b, mid="constsE", ks=[str(Fr(2) ** rng.randint(-6, 6)) for _ in range(2)]))
     # hooks
     for b in ["default", "torch", "jax", "fortran", "onebased"]:
         for _ in range(3 if q else 20):
@@ -769,6 +835,12 @@ def generate(ctx):
         for b in PY_BACKENDS:
             cases.append(dict(m, stiff=True, backend=b, solver="scipy", vectorize=bool(i % 2), ipv=True, precision="float64", mid=f"stiff{i}",
                               support=True, steps=4, ss=1, dt="1/2", kwargs=dict(method="RK45", rtol=1e-7, atol=1e-10)))
+        cases.append(dict(m, stiff=True, backend="jax", solver="diffrax", vectorize=bool(i % 2), ipv=True, precision="float64", mid=f"stiff{i}",
+                          support=True, steps=4, ss=1, dt="1/2", kwargs=dict(rtol=1e-8, atol=1e-11)))
+        md = gen_vec_model(rng, with_input=False, delay=True)
+        for b in ["default", "torch", "jax"]:                  # delayed edge under an adaptive solver: DDEHistory path, torch _solve_scipy_dde
+            cases.append(dict(md, backend=b, solver="scipy", vectorize=False, ipv=True, precision="float64", mid=f"dde{i}", support=True,
+                              steps=8, ss=1, dt="1/4", kwargs=dict(rtol=1e-8, atol=1e-11)))
     return cases
 
 def nontrivial(case):
@@ -782,6 +854,8 @@ def nontrivial(case):
         return any(c["kind"] for c in case["conns"]) and max(len(p["x"]) for p in case["pops"]) >= 2
     if k == "rollnet":
         return any(sh % case["n"] != 0 for sh in case["shifts"])
+    if k == "consts":
+        return True
     if k == "traj":
         return case["steps"] >= 2 and (case["backend"] != "default" or case["solver"] != "euler" or case["vectorize"])
     if k == "hooks":
@@ -825,6 +899,11 @@ Definition l_okI (e : backend * (Qc * Qc * Qc) * (Z * Z * Z) * row * row * (row 
   let '(b, (a, k, g), (n1, n2, n3), x, z, o) := e in pair_eqb (roll_net_deriv (roll_of b) a k g n1 n2 n3 x z) o.
 Definition l_okS (e : backend * (Qc * Qc * Qc) * (Z * Z * Z) * row * row * (row * row)) :=
   let '(b, (a, k, g), (n1, n2, n3), x, z, o) := e in pair_eqb (roll_net_deriv roll a k g n1 n2 n3 x z) o.
+(* named constants *)
+Definition c_okI (e : backend * Qc * Qc) := let '(b, k, o) := e in qeq (Qcmult k (backend_pi b)) o.
+Definition c_okS (e : backend * Qc * Qc) := let '(b, k, o) := e in qeq (Qcmult k pi_f64) o.
+Definition ce_ok (e : backend * Qc * Qc) := let '(b, k, o) := e in qeq (Qcmult k e_f64) o.
+Definition c_guard (e : backend * Qc * Qc) := let '(b, k, o) := e in fortran_pi_free b true.
 (* cross-backend agreement without a Spec (delay buffers) *)
 Definition x_ok (e : list row * list row) := rows_eqb (fst e) (snd e).
 (* hooks: (base, ints, rendered ints, ranges, rendered ranges, var values, calls, values after, roll v, k, observed, fortran shift) *)
@@ -881,6 +960,9 @@ def entries(case, out):
         for pt, o in zip(case["points"], out["outs"]):
             st = clist([f"({cq(x)}, {cq(v)})" for x, v in pt["state"]])
             es.append(("N", f"({cnet(case, pt['k'])}, {st}, {crow(o)})"))
+    elif k == "consts":
+        for kk, o in zip(case["ks"], out["outs"]):
+            es.append(("C" if case.get("const", "pi") == "pi" else "CE", f"({BK[case['backend']]}, {cq(kk)}, {cq(o)})"))
     elif k == "rollnet":
         n1, n2, n3 = case["shifts"]
         for pt, o in zip(case["points"], out["outs"]):
@@ -927,7 +1009,7 @@ def entries(case, out):
 
 STREAMS = {  # stream -> (okI, okS, guard or None)
     "I": ("i_okI", "i_okS", "i_guard"), "R": ("r_okI", "r_okS", None), "N": ("n_ok", "n_ok", None),
-    "T": ("t_okI", "t_okS", "t_guard"), "P": ("p_okI", "p_okS", None), "X": ("x_ok", "x_ok", None), "L": ("l_okI", "l_okS", None), "H1": ("h_idx", "h_idx", None), "H2": ("h_rngI", "h_rngS", None),
+    "T": ("t_okI", "t_okS", "t_guard"), "P": ("p_okI", "p_okS", None), "X": ("x_ok", "x_ok", None), "L": ("l_okI", "l_okS", None), "C": ("c_okI", "c_okS", "c_guard"), "CE": ("ce_ok", "ce_ok", None), "H1": ("h_idx", "h_idx", None), "H2": ("h_rngI", "h_rngS", None),
     "H3": ("h_var", "h_var", None), "H4": ("h_roll", "h_roll", None), "H5": ("h_shiftI", "h_shiftS", None)}
 
 def model_compare(ctx, cases, outs, tag):
@@ -1076,12 +1158,13 @@ def check(ctx):
         cases = corpus + generate(ctx)
     outs, badI, badS, gfalse, crashed, notes = run_cases(ctx, cases, "main")
     guard_viol = {i: ["heun_time_free"] for i in gfalse if cases[i]["kind"] == "traj"}
+    guard_viol.update({i: ["fortran_pi_free"] for i in gfalse if cases[i]["kind"] == "consts" and cases[i].get("const", "pi") == "pi"})
     kinds = {}
     for c in cases:
         key = c["kind"] + ("/support" if c.get("support") else "")
         kinds[key] = kinds.get(key, 0) + 1
     ctx.note(f"E1: {len(cases)} cases {kinds}; real-vs-Impl mismatches {len(badI)}, real-vs-Spec mismatches {len(badS)} "
-             f"(outside guard heun_time_free: {len([i for i in badS if i in guard_viol])}), crashes {len(crashed)}; support: {notes}")
+             f"(outside the guards heun_time_free / fortran_pi_free: {len([i for i in badS if i in guard_viol])}), crashes {len(crashed)}; support: {notes}")
     if (notes["float32_max_rel_err"] > notes["float32_tolerance"] or notes["adaptive_max_rel_diff"] > notes["adaptive_tolerance"]
             or notes["transcendental_max_rel_diff"] > notes["transcendental_tolerance"]):
         ctx.note("SUPPORT stream outside its tolerance (does not decide the property; look at it): " + json.dumps(notes))
@@ -1135,5 +1218,7 @@ def check(ctx):
                                 "BaseBackend._solve_heun (default, fortran) evaluates both stages at t. The two agree exactly for autonomous systems (C02_heun_partial) and differ for "
                                 "time-dependent inputs; run_spec follows the default backend's convention only to have one reference - which backend deviates is a maintainer decision",
                                 "D61 (repaired): torch compiles coupling EdgeTemplates since fix_D61; corpus/C02/D61_torch_wsum.json is the regression case (torch rows = Spec rows)",
+                                "guard fortran_pi_free (finding D1xx-fortran-pi, switch Backends.fixed_fortran_pi = false): the Fortran module constant PI is float32(pi); "
+                                "the stream demands exactly 13176795/4194304 * k there and numpy.pi * k on the other backends",
                                 "delayed edges: no Spec in this property (C09); only exact agreement default = torch = fortran, vectorized = scalar, and the jax refusal are checked",
                                 "IEEE rounding is outside the model: the model computes in Qc"])
